@@ -145,6 +145,44 @@ pub fn run(ctx: &mut Ctx) {
     });
     ctx.require(&r, &["changed_value", "same_value", "all_fail"]);
 
+    // fractional days: the Oracle-style date is the timestamp result rounded to the nearest second
+    let offs = crate::c08::day_fraction_offsets(seed);
+    let bases = pool_od(w, seed);
+    let (offs_r, bases_r) = (&offs, &bases);
+    let no = offs.len() as u64;
+    let r = ctx.sweep_each("oracle_add_days_vs_timestamp_add_days", "oracle-date pool x fractional / integral / large day offsets: OracleDate::add_days / sub_days must be Timestamp::add_days / sub_days rounded to the nearest second (where that is not an exact tie)", bases.len() as u64 * no, 256, |idx, acc| {
+        let f = offs_r[(idx % no) as usize];
+        let o = bases_r[(idx / no) as usize];
+        acc.states += 1;
+        acc.t(2);
+        acc.traces += 1;
+        let od = OracleDate::try_from_usecs(o).unwrap();
+        let ts = Timestamp::try_from_usecs(o).unwrap();
+        for sub in [false, true] {
+            let a = guard(|| if sub { od.sub_days(f) } else { od.add_days(f) }.map(|x| x.usecs()).map_err(|_| ()));
+            let b = guard(|| if sub { ts.sub_days(f) } else { ts.add_days(f) }.map(|x| x.usecs()).map_err(|_| ()));
+            let (a, b) = match (a, b) { (Ok(a), Ok(b)) => (a, b), _ => { acc.cls("panic"); continue; } };
+            match (a, b) {
+                (Ok(x), Ok(t)) => {
+                    let rem = t.rem_euclid(US_SEC);
+                    let lo = t - rem;
+                    let ok = x % US_SEC == 0 && if rem * 2 == US_SEC { x == lo || x == lo + US_SEC } else if rem * 2 < US_SEC { x == lo } else { x == lo + US_SEC };
+                    acc.cls("both_ok");
+                    if rem != 0 { acc.nontrivial += 1; }
+                    if !ok {
+                        acc.fail("C17:add_days:oracle-date-is-not-the-timestamp-result-rounded-to-the-second", idx, || (format!("OracleDate({o}) vs Timestamp({o}) {} {f:?} days", if sub { "-" } else { "+" }), format!("timestamp result {t} rounded to the nearest second"), format!("{x}"), String::new()));
+                    }
+                }
+                (Err(()), Err(())) => acc.cls("all_fail"),
+                // the timestamp result exists but rounds past the last second, or does not exist: the oracle date must fail
+                (Err(()), Ok(t)) => { if t.rem_euclid(US_SEC) * 2 >= US_SEC && t > refmodel::ranges::OD_MAX as i64 { acc.cls("rounds_past_range") } else {
+                    acc.fail("C17:add_days:oracle-date-fails-where-timestamp-result-exists", idx, || (format!("OracleDate({o}) {} {f:?} days", if sub { "-" } else { "+" }), format!("Ok (timestamp result {t})"), "Err".into(), String::new())) } }
+                (Ok(x), Err(())) => acc.fail("C17:add_days:oracle-date-succeeds-where-timestamp-fails", idx, || (format!("OracleDate({o}) {} {f:?} days", if sub { "-" } else { "+" }), "Err".into(), format!("Ok({x})"), String::new())),
+            }
+        }
+    });
+    ctx.require(&r, &["both_ok", "all_fail"]);
+
     // mixed comparisons
     let pool = pool_ts(w, seed);
     let pool = &pool;
@@ -155,7 +193,7 @@ pub fn run(ctx: &mut Ctx) {
             let m = n as i64 * US_DAY;
             let tmin = cal.min_day as i64 * US_DAY;
             let tmax = (cal.max_day as i64 + 1) * US_DAY - 1;
-            let mut insts: Vec<i64> = vec![m - 1, m, m + 1, m + US_SEC, m - US_SEC, m + US_DAY - 1];
+            let mut insts: Vec<i64> = vec![m - 1, m, m + 1, m + US_SEC, m - US_SEC, m + US_DAY - 1, m + (1i64 << 32), m + (20i64 << 32), m - (1i64 << 32), m + (1i64 << 31), m + (1i64 << 33) + 1];
             insts.extend(pool.iter().step_by(7));
             acc.states += 1;
             for &u in &insts {
